@@ -465,7 +465,10 @@ func (ex *Exec) mergeInto(a, b *State) bool {
 			}
 		}
 	}
-	a.PC = append(append([]*Term{}, a.PC[:k]...), c.BOr(gA, gB))
+	a.PC = append([]*Term{}, a.PC[:k]...)
+	if mg := c.BOr(gA, gB); !mg.IsTrue() {
+		a.PC = append(a.PC, mg)
+	}
 	for n, v := range b.SymCount {
 		if v > a.SymCount[n] {
 			a.SymCount[n] = v
